@@ -151,6 +151,12 @@ PROPS = {
                       'tier': 'quick'}],
         'design_ref': 'DESIGN.md Part I, I.4 (C14)',
     },
+    'C17': {
+        'title': 'Pipelines are selected and compiled independently',
+        'v_units': ['compile_pipeline', 'pipelines'],
+        'k_groups': [],
+        'design_ref': 'DESIGN.md Part I, I.4 (C17)',
+    },
     'C19': {
         'title': 'Layout-consistency validation is sound',
         'v_units': ['layout'],
